@@ -15,46 +15,189 @@ use rooc::pipe::{AutoSolverPipe, CompilerPipe, LinearModelPipe, MILPSolverPipe, 
 use rooc::{Auto, BinOp, BuilderConstraint, Constant, Expr, LinearModel, Linearizer, ModelBuilder, Primitive, RoocParser, RoocSolver, UnOp, Var};
 use serde_json::json;
 
-/// Exp -> builder Expr through the operator overloads and helper functions
+/// Exp -> builder Expr through the operator overloads and helper functions.
+/// spelling 0: every operand is converted to `Expr` first (Expr op Expr overloads only);
+/// spelling 1: the most specific overload for each operand pair (i32 / f64 literals, `Var` handles, `bool`
+///             in and/or, `Var::implies`, helper functions over `Var` items);
+/// spelling 2: as 1 but integer constants are passed as f64 and Expr op Expr goes through `Expr op &Expr`.
 fn to_builder(e: &Exp, vars: &IndexMap<String, Var>) -> Expr {
+    to_builder_s(e, vars, 0)
+}
+
+enum Opnd {
+    I(i32),
+    F(f64),
+    V(Var),
+    E(Expr),
+}
+impl Opnd {
+    fn expr(self) -> Expr {
+        match self {
+            Opnd::I(i) => Expr::from(i),
+            Opnd::F(f) => Expr::from(f),
+            Opnd::V(v) => Expr::from(v),
+            Opnd::E(e) => e,
+        }
+    }
+}
+
+fn operand(e: &Exp, vars: &IndexMap<String, Var>, s: usize) -> Opnd {
+    match e {
+        Exp::Number(n) if s == 1 && n.fract() == 0.0 && n.abs() < 1e6 && !(*n == 0.0 && n.is_sign_negative()) => Opnd::I(*n as i32),
+        Exp::Number(n) => Opnd::F(*n),
+        Exp::Variable(v) => Opnd::V(vars[v]),
+        other => Opnd::E(to_builder_s(other, vars, s)),
+    }
+}
+
+fn arith(op: BinOp, l: Opnd, r: Opnd, s: usize) -> Expr {
+    macro_rules! go {
+        ($a:expr, $b:expr) => {
+            match op {
+                BinOp::Add => $a + $b,
+                BinOp::Sub => $a - $b,
+                BinOp::Mul => $a * $b,
+                BinOp::Div => $a / $b,
+                _ => unreachable!(),
+            }
+        };
+    }
+    use Opnd::*;
+    match (l, r) {
+        (I(a), V(b)) => go!(a, b),
+        (I(a), E(b)) => go!(a, b),
+        (F(a), V(b)) => go!(a, b),
+        (F(a), E(b)) => go!(a, b),
+        (V(a), I(b)) => go!(a, b),
+        (V(a), F(b)) => go!(a, b),
+        (V(a), V(b)) => go!(a, b),
+        (V(a), E(b)) => go!(a, b),
+        (E(a), I(b)) => go!(a, b),
+        (E(a), F(b)) => go!(a, b),
+        (E(a), V(b)) => go!(a, b),
+        (E(a), E(b)) => {
+            if s == 2 {
+                let b = &b;
+                go!(a, b)
+            } else {
+                go!(a, b)
+            }
+        }
+        // two literals: there is no overload producing an Expr
+        (a, b) => {
+            let (a, b) = (a.expr(), b.expr());
+            go!(a, b)
+        }
+    }
+}
+
+fn as_bool(o: &Opnd) -> Option<bool> {
+    match o {
+        Opnd::I(0) => Some(false),
+        Opnd::I(1) => Some(true),
+        Opnd::F(f) if *f == 0.0 && f.is_sign_positive() => Some(false),
+        Opnd::F(f) if *f == 1.0 => Some(true),
+        _ => None,
+    }
+}
+
+fn logic2(and: bool, l: Opnd, r: Opnd) -> Expr {
+    macro_rules! go {
+        ($a:expr, $b:expr) => {
+            if and { $a & $b } else { $a | $b }
+        };
+    }
+    use Opnd::*;
+    let (lb, rb) = (as_bool(&l), as_bool(&r));
+    match (l, r, lb, rb) {
+        (V(a), V(b), _, _) => go!(a, b),
+        (V(a), E(b), _, _) => go!(a, b),
+        (E(a), V(b), _, _) => go!(a, b),
+        (E(a), E(b), _, _) => go!(a, b),
+        (V(a), _, _, Some(b)) => go!(a, b),
+        (E(a), _, _, Some(b)) => go!(a, b),
+        (_, V(b), Some(a), _) => go!(a, b),
+        (_, E(b), Some(a), _) => go!(a, b),
+        (a, b, _, _) => {
+            let (a, b) = (a.expr(), b.expr());
+            go!(a, b)
+        }
+    }
+}
+
+fn to_builder_s(e: &Exp, vars: &IndexMap<String, Var>, s: usize) -> Expr {
+    let all_vars = |v: &Vec<Exp>| -> Option<Vec<Var>> { if s == 0 { None } else { v.iter().map(|x| if let Exp::Variable(n) = x { Some(vars[n]) } else { None }).collect() } };
     match e {
         Exp::Number(n) => Expr::from(*n),
         Exp::Variable(v) => Expr::from(vars[v]),
-        Exp::Abs(i) => rooc::builder::abs(to_builder(i, vars)),
-        Exp::Min(v) => rooc::builder::min(v.iter().map(|x| to_builder(x, vars))),
-        Exp::Max(v) => rooc::builder::max(v.iter().map(|x| to_builder(x, vars))),
+        Exp::Abs(i) => match operand(i, vars, s) {
+            Opnd::V(v) if s > 0 => rooc::builder::abs(v),
+            Opnd::I(k) if s > 0 => rooc::builder::abs(k),
+            o => rooc::builder::abs(o.expr()),
+        },
+        Exp::Min(v) => match all_vars(v) {
+            Some(vs) => rooc::builder::min(vs),
+            None => rooc::builder::min(v.iter().map(|x| to_builder_s(x, vars, s))),
+        },
+        Exp::Max(v) => match all_vars(v) {
+            Some(vs) => rooc::builder::max(vs),
+            None => rooc::builder::max(v.iter().map(|x| to_builder_s(x, vars, s))),
+        },
         Exp::And(v) => {
             if v.len() == 2 {
-                to_builder(&v[0], vars) & to_builder(&v[1], vars)
+                if s == 0 { to_builder_s(&v[0], vars, s) & to_builder_s(&v[1], vars, s) } else { logic2(true, operand(&v[0], vars, s), operand(&v[1], vars, s)) }
             } else {
-                rooc::builder::all(v.iter().map(|x| to_builder(x, vars)))
+                match all_vars(v) {
+                    Some(vs) => rooc::builder::all(vs),
+                    None => rooc::builder::all(v.iter().map(|x| to_builder_s(x, vars, s))),
+                }
             }
         }
         Exp::Or(v) => {
             if v.len() == 2 {
-                to_builder(&v[0], vars) | to_builder(&v[1], vars)
+                if s == 0 { to_builder_s(&v[0], vars, s) | to_builder_s(&v[1], vars, s) } else { logic2(false, operand(&v[0], vars, s), operand(&v[1], vars, s)) }
             } else {
-                rooc::builder::any(v.iter().map(|x| to_builder(x, vars)))
+                match all_vars(v) {
+                    Some(vs) => rooc::builder::any(vs),
+                    None => rooc::builder::any(v.iter().map(|x| to_builder_s(x, vars, s))),
+                }
             }
         }
-        Exp::Not(i) => !to_builder(i, vars),
-        Exp::Xor(a, b) => to_builder(a, vars) ^ to_builder(b, vars),
-        Exp::Implies(a, b) => to_builder(a, vars).implies(to_builder(b, vars)),
-        Exp::Iff(a, b) => to_builder(a, vars).iff(to_builder(b, vars)),
-        Exp::UnOp(UnOp::Neg, i) => -to_builder(i, vars),
-        Exp::UnOp(UnOp::Not, i) => !to_builder(i, vars),
+        Exp::Not(i) | Exp::UnOp(UnOp::Not, i) => match operand(i, vars, s) {
+            Opnd::V(v) if s > 0 => !v,
+            o => !o.expr(),
+        },
+        Exp::Xor(a, b) | Exp::BinOp(BinOp::Xor, a, b) => match (operand(a, vars, s), operand(b, vars, s)) {
+            (Opnd::V(x), Opnd::V(y)) if s > 0 => x ^ y,
+            (Opnd::V(x), Opnd::E(y)) if s > 0 => x ^ y,
+            (Opnd::E(x), Opnd::V(y)) if s > 0 => x ^ y,
+            (x, y) => x.expr() ^ y.expr(),
+        },
+        Exp::Implies(a, b) | Exp::BinOp(BinOp::Implies, a, b) => match (operand(a, vars, s), operand(b, vars, s)) {
+            (Opnd::V(x), Opnd::V(y)) if s > 0 => x.implies(y),
+            (Opnd::V(x), y) if s > 0 => x.implies(y.expr()),
+            (x, Opnd::V(y)) if s > 0 => x.expr().implies(y),
+            (x, Opnd::I(y)) if s > 0 => x.expr().implies(y),
+            (x, y) => x.expr().implies(y.expr()),
+        },
+        Exp::Iff(a, b) | Exp::BinOp(BinOp::Iff, a, b) => match (operand(a, vars, s), operand(b, vars, s)) {
+            (Opnd::V(x), Opnd::V(y)) if s > 0 => x.iff(y),
+            (Opnd::V(x), y) if s > 0 => x.iff(y.expr()),
+            (x, Opnd::V(y)) if s > 0 => x.expr().iff(y),
+            (x, Opnd::F(y)) if s > 0 => x.expr().iff(y),
+            (x, y) => x.expr().iff(y.expr()),
+        },
+        Exp::UnOp(UnOp::Neg, i) => match operand(i, vars, s) {
+            Opnd::V(v) if s > 0 => -v,
+            o => -o.expr(),
+        },
+        Exp::BinOp(BinOp::And, a, b) => if s == 0 { to_builder_s(a, vars, s) & to_builder_s(b, vars, s) } else { logic2(true, operand(a, vars, s), operand(b, vars, s)) },
+        Exp::BinOp(BinOp::Or, a, b) => if s == 0 { to_builder_s(a, vars, s) | to_builder_s(b, vars, s) } else { logic2(false, operand(a, vars, s), operand(b, vars, s)) },
         Exp::BinOp(op, a, b) => {
-            let (l, r) = (to_builder(a, vars), to_builder(b, vars));
-            match op {
-                BinOp::Add => l + r,
-                BinOp::Sub => l - r,
-                BinOp::Mul => l * r,
-                BinOp::Div => l / r,
-                BinOp::And => l & r,
-                BinOp::Or => l | r,
-                BinOp::Xor => l ^ r,
-                BinOp::Implies => l.implies(r),
-                BinOp::Iff => l.iff(r),
+            if s == 0 {
+                arith(*op, Opnd::E(to_builder_s(a, vars, s)), Opnd::E(to_builder_s(b, vars, s)), 0)
+            } else {
+                arith(*op, operand(a, vars, s), operand(b, vars, s), s)
             }
         }
     }
@@ -69,6 +212,10 @@ struct Built {
 /// order = position of the objective call among the constraint calls; split = how many leading
 /// constraints go through `with` (the rest through one `with_all`)
 fn build(m: &SrcModel, order: usize, split: usize, explicit_satisfy: bool, extra_unused: bool) -> Built {
+    build_s(m, order, split, explicit_satisfy, extra_unused, 0)
+}
+
+fn build_s(m: &SrcModel, order: usize, split: usize, explicit_satisfy: bool, extra_unused: bool, sp: usize) -> Built {
     let mut b = ModelBuilder::new();
     let mut handles = IndexMap::new();
     for (n, d) in &m.vars {
@@ -81,9 +228,9 @@ fn build(m: &SrcModel, order: usize, split: usize, explicit_satisfy: bool, extra
     let cons: Vec<BuilderConstraint> = m
         .cons
         .iter()
-        .map(|c| if c.bare { BuilderConstraint::new_logic_assertion(to_builder(&c.lhs, &handles), c.name.clone()) } else { BuilderConstraint::new(to_builder(&c.lhs, &handles), crate::lm::rel_to_cmp(c.rel), to_builder(&c.rhs, &handles), c.name.clone()) })
+        .map(|c| if c.bare { BuilderConstraint::new_logic_assertion(to_builder_s(&c.lhs, &handles, sp), c.name.clone()) } else { BuilderConstraint::new(to_builder_s(&c.lhs, &handles, sp), crate::lm::rel_to_cmp(c.rel), to_builder_s(&c.rhs, &handles, sp), c.name.clone()) })
         .collect();
-    let objective_expr = if m.sense == Sense::Satisfy { None } else { Some(to_builder(&m.obj, &handles)) };
+    let objective_expr = if m.sense == Sense::Satisfy { None } else { Some(to_builder_s(&m.obj, &handles, sp)) };
     let set_obj = |b: ModelBuilder| match (&objective_expr, m.sense) {
         (Some(e), Sense::Min) => b.minimize(e.clone()),
         (Some(e), Sense::Max) => b.maximize(e.clone()),
@@ -183,6 +330,13 @@ fn check_case(case: &Case, l: &mut Local) {
                 }
             }
         }
+    }
+    // the same model through the typed operator overloads (i32 / f64 / Var / bool / &Expr operands)
+    for sp in 1..=2 {
+        let b = build_s(m, k, k, false, false, sp);
+        let lm = crate::core::catch(|| b.builder.clone().linearize().map_err(|e| format!("linearize: {e}"))).unwrap_or_else(|p| Err(format!("panic: {p}")));
+        l.count("builder_operand_spellings");
+        builder_lms.push((format!("operand spelling {sp} (typed overloads)"), lm));
     }
     for (desc, blm) in &builder_lms {
         match (blm, &lm_text) {
@@ -318,6 +472,12 @@ fn check_case(case: &Case, l: &mut Local) {
         for (what, e) in exprs {
             let be = to_builder(&e, &b0.handles);
             let got = sol.eval(&be);
+            for sp in 1..=2 {
+                let alt = sol.eval(&to_builder_s(&e, &b0.handles, sp));
+                if alt.to_bits() != got.to_bits() && !(alt.is_nan() && got.is_nan()) {
+                    l.violation(sig("eval-differs-between-operand-spellings"), format!("{what}: eval gives {got} for Expr operands and {alt} for typed operands (spelling {sp})"), case_json(what.clone()));
+                }
+            }
             if let Ok(want) = eval(&e, &env) {
                 let w = to_f64(&want);
                 l.count("evals_compared");
@@ -378,7 +538,7 @@ pub fn run(mut run: Run) -> ! {
     run.case_timeout_s = 60.0;
     let quick = run.quick();
     let depth = if quick { 1 } else { 2 };
-    run.rule = "generator-AST models (objective family and constraint family of C02/C01 over bounded declarations, every row named) are expressed through: the fluent builder via operator overloads and helper functions with EVERY call order (objective at each of the k+1 positions, every split of the constraints between with and with_all, satisfy explicit or defaulted, with and without two declared-but-unused variables), source text with inline constants, source text with the constants supplied through the API, PipeRunner presets (Compiler>PreModel>Model>LinearModel>MILP and >Auto), RoocSolver one-shot, plus compiled-in vars!/constraint!/expr! spellings; linear models are compared row for row (modulo unused builder variables), verdicts and optimal values across doors, pipe stage outputs with direct calls, and values read back through handles, names and eval with the reference semantics; distinct = source texts; non-trivial = compiles".into();
+    run.rule = "generator-AST models (objective family and constraint family of C02/C01 over bounded declarations, every row named) are expressed through: the fluent builder via operator overloads and helper functions (three operand spellings: Expr op Expr only; the most specific overload per operand pair over i32/f64 literals, Var handles, bool and helper functions over Var items; f64-only literals with Expr op &Expr) with EVERY call order (objective at each of the k+1 positions, every split of the constraints between with and with_all, satisfy explicit or defaulted, with and without two declared-but-unused variables), source text with inline constants, source text with the constants supplied through the API, PipeRunner presets (Compiler>PreModel>Model>LinearModel>MILP and >Auto), RoocSolver one-shot, plus compiled-in vars!/constraint!/expr! spellings; linear models are compared row for row (modulo unused builder variables), verdicts and optimal values across doors, pipe stage outputs with direct calls, and values read back through handles, names and eval with the reference semantics; distinct = source texts; non-trivial = compiles".into();
     run.assume("identical expression trees must give identical linear models; the builder keeps unused variables, which are projected away; tolerance 1e-6 on optimal values and read-back");
     let n2 = c02::family_size_pub(depth, quick);
     let stride2 = 1;
